@@ -457,6 +457,37 @@ func (f *Footer) initChildFooterRefs() {
 	}
 }
 
+// childFileRef returns the FileRef of the first persisted segment
+// found in the child footers (recursively), or nil when there is none.
+func (f *Footer) childFileRef() *FileRef {
+	if mref := f.childMmapRef(); mref != nil {
+		return mref.fref
+	}
+	return nil
+}
+
+// childMmapRef returns the mmapRef of the first persisted segment found
+// in the child footers (recursively), or nil when there is none.
+func (f *Footer) childMmapRef() *mmapRef {
+	for _, childFooter := range f.ChildFooters {
+		if mref := childFooter.anyMmapRef(); mref != nil {
+			return mref
+		}
+	}
+	return nil
+}
+
+// anyMmapRef returns the mmapRef of the first persisted segment of
+// this footer or, when it has none, of its child footers.
+func (f *Footer) anyMmapRef() *mmapRef {
+	for _, sloc := range f.SegmentLocs {
+		if sloc.mref != nil && sloc.mref.fref != nil {
+			return sloc.mref
+		}
+	}
+	return f.childMmapRef()
+}
+
 // Length returns the length of this footer
 func (f *Footer) Length() uint64 {
 	jBuf, err := json.Marshal(f)
